@@ -172,7 +172,7 @@ func vSymState(b vBounds) *vEnv {
 		cv.vidx = uint16(i)
 		vAssume(cv.newView > d.ViewNumber) // Inv 8
 		if i == b.my {
-			vAssume(cv.newView == d.ViewNumber+1 && cv.view == d.ViewNumber)
+			vAssume(e.watchFlag || cv.newView == d.ViewNumber+1 && cv.view == d.ViewNumber)
 		}
 		d.ChangeViewPayloads[i] = vMaybe("cv.present", cv)
 		lcv := vSymPayload("lastcv", ChangeViewType, d.BlockIndex)
@@ -250,7 +250,7 @@ func vSymState(b vBounds) *vEnv {
 		if ct == apiPrepareRequest {
 			cp.txs = vSymTxs("cache", vParam("mntx"))
 		}
-		vAssume(int(cp.vidx) != b.my)
+		vAssume(int(cp.vidx) != b.my || e.watchFlag)
 		if vParam("csame") == 1 {
 			vAssume(cp.height == d.BlockIndex)
 		} else if vParam("csame") == 2 {
